@@ -281,6 +281,9 @@ def run_case(w, c):
                 ev['obs'] = o
             finally:
                 decimalfp.set_dflt_rounding_mode(ROUNDING.ROUND_HALF_EVEN)
+        elif op == 'price_rate':
+            ev['obs'] = price_case(w, c)
+            ev['r'] = proj_rate(w.mk_rate(c['r']))
         elif op == 'isocount':
             from quantity.money import currencies
             ev['n'] = len(getattr(currencies, '_currency_dict', getattr(currencies, '_CURRENCY_DICT', {})))
@@ -288,3 +291,58 @@ def run_case(w, c):
         import traceback
         ev['exc'] = ''.join(traceback.format_exception(type(exc), exc, exc.__traceback__))[-600:]
     return ev
+
+
+_PRICE = {}
+
+
+def price_world(w, decl):
+    """A money-per-mass type with exactly the declared compound units (one world per declared set and process)."""
+    from quantity import Quantity, QuantityMeta
+    key = tuple(sorted((d['c'], d['m']) for d in decl))
+    if key in _PRICE:
+        return _PRICE[key]
+    n = len(_PRICE)
+    Mass = QuantityMeta('PMass%d' % n, (Quantity,), {}, ref_unit_symbol='pkg%d' % n)
+    kg = Mass.ref_unit
+    mass = {'kg': kg, 'g': Mass.new_unit('pg%d' % n, None, mk_amount([1, 1000], 'dec') * kg),
+            't': Mass.new_unit('pt%d' % n, None, 1000 * kg)}
+    PPM = QuantityMeta('PricePerMass%d' % n, (Quantity,), {}, define_as=w.Money / Mass)
+    units = {}
+    for d in decl:      # declaration order as given
+        if d['m'] == 't' and (d['c'], 'kg') in units:
+            # a definition chain of depth 2: 1 EUR/t = 0.001 EUR/kg (the definition names another price unit)
+            units[(d['c'], 't')] = PPM.new_unit('%s/t#%d' % (d['c'], n), None,
+                                               mk_amount([1, 1000], 'dec') * units[(d['c'], 'kg')])
+        else:
+            units[(d['c'], d['m'])] = PPM.derive_unit_from(w.cur[d['c']], mass[d['m']])
+    _PRICE[key] = (PPM, units, Mass, mass)
+    return _PRICE[key]
+
+
+def price_case(w, c):
+    PPM, units, Mass, mass = price_world(w, c['decl'])
+    p = c['p']
+    r = w.mk_rate(c['r'])
+    o = dict(st='err', mro=[], c='', m='', a=qjson(0), sametype=False)
+    try:
+        amt = mk_amount([p['n'], p['d']], p.get('rep', 'dec'))
+        if p['ismoney']:
+            q = PPM(amt, units[(p['c'], p['m'])])
+        else:
+            q = Mass(amt, mass[p['m']])
+        if c['form'] == 'mul':
+            res = q * r
+        elif c['form'] == 'rmul':
+            res = r * q
+        else:
+            res = q / r
+        name = [k for k, v in units.items() if v is res.unit]
+        if isinstance(res.amount, float):
+            o['st'] = 'inexact'
+        else:
+            o.update(st='ok', c=name[0][0] if name else '?', m=name[0][1] if name else '?', a=qjson(res.amount),
+                     sametype=type(res) is PPM)
+    except Exception as exc:
+        o.update(st='err', mro=[k.__name__ for k in type(exc).__mro__])
+    return o
